@@ -73,6 +73,20 @@ def run(tmp, seed, rounds, ENV, HARNESS, overlay, log):
     return analyse(calls, rounds, res)
 
 
+def _positions(c, dsz):
+    """argument POSITIONS (idx, tbl, dst) inferred from one call, or None"""
+    args = c["args"]
+    small = [i for i, a in enumerate(args) if a < 4096]
+    if len(small) != 1:
+        return None
+    ptrs = [i for i in range(3) if i != small[0]]
+    writes = [a for t in c["trace"] for rw, a in t[2] if rw == "W"]
+    cand = [i for i in ptrs if any(args[i] <= a < args[i] + dsz for a in writes)]
+    if len(cand) != 1:
+        return None
+    return small[0], [i for i in ptrs if i != cand[0]][0], cand[0]
+
+
 def _roles(c, dsz):
     """Which argument word is the table, the destination, the index: inferred from
     the accesses (the destination is the pointer argument that is written to)."""
@@ -97,9 +111,15 @@ def analyse(calls, rounds, res):
         fp = {}
         idxs = set()
         first = None
+        learnt = None
+        for c in cs:
+            learnt = learnt or _positions(c, dsz)
         for c in cs:
             steps += c["steps"]
             ro = _roles(c, dsz)
+            if ro is None and learnt is not None:
+                # e.g. a call that wrote nothing: the argument order is the routine's, not the call's
+                ro = dict(idx=c["args"][learnt[0]], tbl=c["args"][learnt[1]], dst=c["args"][learnt[2]])
             if ro is None:
                 res["inconclusive"] = "%s lookup: cannot tell table / destination / index apart from the arguments %s" % (kind, c["args"])
                 continue
@@ -142,8 +162,6 @@ def analyse(calls, rounds, res):
                             res["violations"].append("C19: %s lookup, index %d: instruction +%d (%s) reads %d bytes at %s%+d, outside the table / argument frame" % (kind, idx, pcoff, mnem, sz, name, off))
                             res["witness"] = res["witness"] or dict(kind=kind, idx=idx, pc=pcoff, mnem=mnem, mem=[rw, name, off])
                 rel.append([pcoff, mnem, rm])
-            if written != set(range(dsz)):
-                res["violations"].append("C19: %s lookup, index %d: wrote %d of the %d coordinate bytes" % (kind, idx, len(written), dsz))
             first = first or rel
             h = hashlib.sha256(json.dumps(rel).encode()).hexdigest()[:16]
             fp.setdefault(h, []).append((idx, rel))
